@@ -4,4 +4,5 @@ CONSTANTS
   MaxOps = 4
   SetOrder = TRUE
   Timestamps = FALSE
+  ComponentMemo = FALSE
 INVARIANT OutputIsFunctionOfModel
